@@ -3582,6 +3582,43 @@ theorem hashAcl_text : toText false hashAcl 17 = .text (str "user:a#b:::allow:5"
   decide
 
 
+/-- The same ACL with a name the text form can carry. -/
+def goodAcl : Acl :=
+  { mode := 0, entries := [⟨typeAllow, tagUser, 0, 5, str "a-b"⟩], types := typeAllow }
+
+theorem goodAcl_text : toText false goodAcl 17 = .text (str "user:a-b:::allow:5") := by
+  have h5 : digits 5 = [53] := digits_small 5 (by decide)
+  have hl : idLenLoop 5 = 1 := idLenLoop_small 5 (by decide)
+  have hw : textWantType goodAcl 17 = typeNfs4 := by decide
+  have hlisted : listed goodAcl typeNfs4 = goodAcl.entries := by decide
+  have hid : appendId 5 = [53] := by simp [appendId, h5]
+  have hentry : entryText false 17 ⟨typeAllow, tagUser, 0, 5, str "a-b"⟩ = str "user:a-b:::allow:5" := by
+    rw [entryText_extra _ _ _ (by decide), appendEntry_nfs4 _ _ _ _ _ _ _ _ (Or.inl rfl),
+      qualPart_ug _ _ _ _ _ (Or.inl rfl)]
+    have hne : (str "a-b" ≠ []) = True := by decide
+    have h51 : ((5 : Int) ≠ -1) = True := by decide
+    simp only [hne, if_true, h51, hid]
+    decide
+  have hbody : textBody false goodAcl typeNfs4 17 = str "user:a-b:::allow:5" := by
+    unfold textBody
+    rw [hlisted]
+    have : (typeNfs4 &&& typeAccess ≠ 0) = False := by decide
+    simp only [this, if_false, List.nil_append, goodAcl, List.map_cons, List.map_nil, hentry]
+    decide
+  have hlen : textLen goodAcl typeNfs4 17 = 40 := by
+    unfold textLen
+    rw [hlisted]
+    simp only [goodAcl, List.map_cons, List.map_nil, entryTextLen, idLen]
+    have : (5 : Int).toNat = 5 := rfl
+    simp only [this, hl]
+    decide
+  unfold toText
+  have hf : textFlags typeNfs4 17 = 17 := by decide
+  simp only [hw, hf, hlen, hbody]
+  decide
+
+
+
 theorem hashAcl_parse :
     fromText false {} (str "user:a#b:::allow:5") typeNfs4 =
       .ok { acl := {}, status := .warn, skipped := 1, added := 0 } := by
